@@ -81,7 +81,9 @@ def path_axioms():
     p, q = z3.Const("p!ax", PathS), z3.Const("q!ax", PathS)
     s, t = z3.String("s!ax"), z3.String("t!ax")
     p_suffix = z3.Function("p_suffix", PathS, z3.StringSort())
+    p_base = z3.Function("p_joinp_base", PathS, PathS, PathS)
     ax = [
+        z3.ForAll([p, q], p_base(p_joinp(p, q), q) == p, patterns=[p_joinp(p, q)]),      # p / q determines p, for a given relative q
         z3.ForAll([p, s], p_suffix(p_with_suffix(p, s)) == s, patterns=[p_with_suffix(p, s)]),
         z3.ForAll([p, s], p_parent(p_join(p, s)) == p, patterns=[p_join(p, s)]),
         z3.ForAll([p, s], p_name(p_join(p, s)) == s, patterns=[p_join(p, s)]),
